@@ -190,11 +190,12 @@ class Top(Val):
 
 
 class IntV(Val):
-    __slots__ = ("ty", "bits", "lo", "hi", "aff", "deps", "sid", "term")
+    __slots__ = ("ty", "bits", "lo", "hi", "aff", "deps", "sid", "term", "vset")
     kind = "int"
 
-    def __init__(self, ty, bits=None, lo=None, hi=None, aff=None, deps=None, sid=None, term=None):
+    def __init__(self, ty, bits=None, lo=None, hi=None, aff=None, deps=None, sid=None, term=None, vset=None):
         self.ty = ty
+        self.vset = vset
         w, signed = INT_TYPES[ty]
         tlo, thi = ty_range(ty)
         if bits is not None:
@@ -240,6 +241,17 @@ class IntV(Val):
         self.deps = frozenset(d)
         self.sid = sid
         self.term = term
+        if self.vset is not None:
+            vs = frozenset(x for x in self.vset if self.lo <= x <= self.hi)
+            self.vset = vs if vs else None
+            if vs:
+                self.lo, self.hi = max(self.lo, min(vs)), min(self.hi, max(vs))
+
+    def values(self):
+        """small explicit value set, if known"""
+        if self.lo == self.hi:
+            return frozenset([self.lo])
+        return self.vset
 
     @staticmethod
     def const(ty, v):
@@ -286,13 +298,14 @@ class IntV(Val):
         hi = min(hi, self.hi)
         if lo == self.lo and hi == self.hi:
             return self
-        v = IntV(self.ty, self.bits, lo, hi, self.aff, self.deps, self.sid, self.term)
+        v = IntV(self.ty, self.bits, lo, hi, self.aff, self.deps, self.sid, self.term, self.vset)
         if lo == hi and lo >= 0 and self.bits is None:
             return IntV.const(self.ty, lo)._with(sid=self.sid, deps=self.deps)
         return v
 
     def _with(self, **kw):
-        d = dict(ty=self.ty, bits=self.bits, lo=self.lo, hi=self.hi, aff=self.aff, deps=self.deps, sid=self.sid, term=self.term)
+        d = dict(ty=self.ty, bits=self.bits, lo=self.lo, hi=self.hi, aff=self.aff, deps=self.deps, sid=self.sid, term=self.term,
+                 vset=self.vset)
         d.update(kw)
         return IntV(**d)
 
@@ -519,6 +532,10 @@ def show_term(t, depth=0):
     if isinstance(t, tuple):
         if depth > 6:
             return "…"
+        if not t:
+            return "()"
+        if not isinstance(t[0], str):
+            return "(%s)" % ", ".join(show_term(x, depth + 1) for x in t)
         return "%s(%s)" % (t[0], ", ".join(show_term(x, depth + 1) for x in t[1:]))
     return str(t)
 
@@ -595,11 +612,15 @@ def join(a, b):
     if k == "int":
         if a.ty != b.ty:
             return Top(a.deps | b.deps, "join int types")
-        if a.lo == b.lo and a.hi == b.hi and a.bits == b.bits and a.aff == b.aff and a.sid == b.sid:
+        if a.lo == b.lo and a.hi == b.hi and a.bits == b.bits and a.aff == b.aff and a.sid == b.sid and a.vset == b.vset:
             return a if a.deps >= b.deps else a._with(deps=a.deps | b.deps)
+        va, vb = a.values(), b.values()
+        vs = None
+        if va is not None and vb is not None and len(va | vb) <= 16:
+            vs = va | vb
         return IntV(a.ty, join_bits(a.bits, b.bits), min(a.lo, b.lo), max(a.hi, b.hi),
                     a.aff if a.aff is not None and a.aff == b.aff else None, a.deps | b.deps,
-                    a.sid if a.sid == b.sid else None, a.term if a.term == b.term else None)
+                    a.sid if a.sid == b.sid else None, a.term if a.term == b.term else None, vs)
     if k == "bool":
         if a.val == b.val and a.origin is b.origin and a.bit == b.bit:
             return a
